@@ -20,7 +20,7 @@ MCMutations == {"none", "add_output_parameter", "undefined_compartment_in_transi
                 "junction_outflow_not_proportion", "proportion_on_ordinary_link", "source_outflow_not_number", "sink_outflow", "inflow_to_source", "self_reference", "cyclic_functions",
                 "unsupported_call", "undefined_dependency", "undefined_characteristic_component", "cyclic_characteristics", "junction_cycle", "residual_from_ordinary_compartment", "add_residual_outflow", "two_residual_outflows", "unnested_cascade", "unnested_cascade_later_stage", "characteristic_on_unlisted_page", "capitalised_units", "delete_transitions_sheet", "delete_parameters_sheet", "delete_format_column",
                 "delete_code_name_column", "blank_optional_column", "delete_optional_sheet",
-                "databook_delete_table", "databook_unit_mismatch", "databook_unit_mismatch_compartment", "databook_blank_required_values", "databook_unknown_population", "databook_missing_population_row", "databook_legacy_missing_population_row", "databook_delete_state_sheet",
+                "databook_delete_table", "databook_unit_mismatch", "databook_unit_timescale_mismatch", "databook_unit_mismatch_compartment", "databook_blank_required_values", "databook_unknown_population", "databook_missing_population_row", "databook_legacy_missing_population_row", "databook_delete_state_sheet",
                 "progbook_none", "progbook_lowercase_flags", "progbook_zero_outcome", "progbook_unknown_population", "progbook_unknown_compartment", "progbook_duplicate_program", "progbook_duplicate_program_everywhere", "progbook_duplicate_program_consistent",
                 "progbook_reserved_program_name", "progbook_untargetable_parameter", "progbook_unknown_parameter", "progbook_unknown_effect_population", "progbook_unknown_program_in_effects",
                 "progbook_interaction_unknown_program", "progbook_no_target_compartment", "progbook_no_target_population", "progbook_missing_unit_cost", "progbook_missing_spending",
